@@ -121,5 +121,5 @@ pub fn mktime<V: ValT>(v: &V) -> ValR<V> {
         .and_then(|dt| dt.to_zoned(tz::TimeZone::UTC))
         .map_err(Error::str)?
         .timestamp();
-    timestamp_to_epoch(ts, ts.subsec_nanosecond() > 0)
+    timestamp_to_epoch(ts, ts.subsec_nanosecond() != 0)
 }
